@@ -11,11 +11,11 @@ from .. import observe_bi as O
 LEVEL = 'exploration'
 warnings.simplefilter('ignore')
 S = O.S
-RELATIONS = ('independent', 'dependent', 'duplicate', 'negative', 'monotone', 'constant', 'near-duplicate')
+RELATIONS = ('independent', 'dependent', 'duplicate', 'negative', 'monotone', 'constant', 'near-duplicate', 'weak')
 CONFIGS = ('gaussian-class', 'gaussian-name', 'instance', 'dict', 'kde', 'default')
 
 
-def table(ncol, relations, rs, n=60):
+def table(ncol, relations, rs, n=60, labels='str'):
     cols = ['w3', 'a0', 'm1', 'z4', 'c2', 'k9'][:ncol]         # training order is not the alphabetical order
     z = rs.normal(size=(n, ncol))
     out = {}
@@ -33,11 +33,21 @@ def table(ncol, relations, rs, n=60):
             v = np.exp(out[cols[0]] / (1 + np.abs(out[cols[0]]).max()) * 3)
         elif rel == 'constant':
             v = np.full(n, 2.5)
+        elif rel == 'weak':
+            # sample Pearson correlation with the first column exactly 0.006 (weak is not absent)
+            a = out[cols[0]] - np.mean(out[cols[0]])
+            e = z[:, j] - np.mean(z[:, j])
+            e = e - a * (a @ e) / (a @ a)
+            v = 0.006 * a / np.sqrt(a @ a) + np.sqrt(1 - 0.006 ** 2) * e / np.sqrt(e @ e)
+            v = v * 3.0 + 1.0
         elif rel == 'near-duplicate':
             v = out[cols[0]] + 1e-9 * z[:, j]
         out[cols[j]] = v
     # a row index that is neither 0..n-1 nor sorted: nothing may be aligned on it by accident
-    return pd.DataFrame(out, index=rs.permutation(n) * 3 + 100)
+    df = pd.DataFrame(out, index=rs.permutation(n) * 3 + 100)
+    if labels == 'int':         # column labels need not be strings (nor sorted)
+        df.columns = [30, 10, 50, 20, 60, 40][:ncol]
+    return df
 
 
 def config(name, cols):
@@ -76,7 +86,7 @@ def _observe(job):
     from copulas.multivariate import GaussianMultivariate
     rs = np.random.RandomState(seed)
     # most tables have 60 rows; every seventh has 1234 (nothing may depend on the number of rows being small or round)
-    df = table(ncol, relations, rs, n=1234 if seed % 7 == 3 else 60)
+    df = table(ncol, relations, rs, n=1234 if seed % 7 == 3 else 60, labels='int' if seed % 5 == 2 else 'str')
     cols = list(df.columns)
     rec = {'kind': 'corr', 'err': '', 'S': S, 'R': [], 'Rref': [], 'const': [bool(df[c].nunique() == 1) for c in cols], 'mineig': 0,
            'labelsOK': True, 'usable': True, 'desc': '%d|%s|%s' % (ncol, ','.join(relations[1:]), cfg)}
@@ -125,7 +135,7 @@ def _observe(job):
 def run(ctx):
     quick = ctx.tier == 'quick'
     ctx.rule = ('tables of 2..%d columns whose columns 2.. stand in every combination of relations to the first / previous column (independent, '
-                'dependent, exact duplicate, exact negative, monotone transform, constant, duplicate up to 1e-9) x marginal configurations (class, '
+                'dependent, exact duplicate, exact negative, monotone transform, constant, duplicate up to 1e-9, correlation exactly 0.006) x marginal configurations (class, '
                 'qualified name, instance, per-column dict, KDE, default selection); TLC (GaussLaws) checks on the fixed-point matrix: finite, '
                 'symmetric, entries in [-1,1], unit diagonal for non-constant columns up to the ridge, zero correlation of constant columns, every '
                 'entry equal to the harness\'s own normal-score Pearson correlation, smallest eigenvalue >= -ridge, labels, and that sampling and '
